@@ -342,10 +342,101 @@ class Gen:
         self.plains.append(name)
         return c
 
+    def vary_defaults(self):
+        """Subclasses that change the default of an inherited parameter, and
+        sibling classes that share one inherited _yatiml_defaults dict while
+        each removes its own defaults."""
+        rng = self.rng
+        by = {c['name']: c for c in self.classes}
+
+        def chain_has_removal(c):
+            return any(by[a].get('sweeten') == [['remove_defaults']]
+                       for a in self.ancestors(c) if a in by)
+        for c in self.classes:
+            if c.get('kind') != 'plain' or not c.get('bases') or \
+                    chain_has_removal(c):
+                continue
+            inherited = {p['name'] for b in c['bases'] if b in by
+                         for p in by[b].get('params', [])}
+            for p in c['params']:
+                if p['name'] in inherited and 'default' in p and p[
+                        'type'] in ('int', 'str', 'float') and \
+                        rng.random() < 0.25:
+                    d = self.default_for(p['type'])
+                    if d != '__none__':
+                        p['default'] = d
+        for b in self.classes:
+            if b.get('kind') != 'plain' or b.get('sweeten') or \
+                    b.get('defaults_override') or chain_has_removal(b):
+                continue
+            kids = [c for c in self.classes if b['name'] in c.get(
+                'bases', []) and c.get('kind') == 'plain'
+                and not c.get('sweeten') and not c.get('savorize')
+                and any('default' in p and p['type'] in (
+                    'int', 'str', 'float', 'bool') for p in c['params'])]
+            if len(kids) >= 2 and rng.random() < 0.5:
+                # names no signature has: by itself it changes nothing
+                b['defaults_override'] = {'zz_unused': 1}
+                for k in kids:
+                    if not any(by[d].get('sweeten') for d in by
+                               if k['name'] in self.ancestors(by[d])):
+                        k['sweeten'] = [['remove_defaults']]
+                        k['savorize'] = [['record']]
+
+    def add_roster(self):
+        """Structural seasoning: an owner class whose list (or dict) of item
+        objects is written as a mapping keyed by one item attribute
+        (map_attribute_to_seq / seq_attribute_to_map, or
+        map_attribute_to_index / index_attribute_to_map), optionally in the
+        short form `key: value`."""
+        rng = self.rng
+        free_strlikes = [n for n in self.strlikes if not any(
+            c['name'] == n and c.get('constraint') for c in self.classes)]
+
+        def key_type():
+            if free_strlikes and rng.random() < 0.35:
+                return ['cls', rng.choice(free_strlikes)]
+            return 'str'
+        iname = self.new_name('I')
+        ip = iname.lower()
+        item = {'name': iname, 'kind': 'plain', 'roster_item': True,
+                'params': [{'name': ip + '_key', 'type': key_type()},
+                           {'name': ip + '_val', 'type': rng.choice(
+                               ['int', 'int', 'str', 'float', 'bool'])}]}
+        if rng.random() < 0.4:
+            item['params'].append({'name': ip + '_opt', 'type': 'str',
+                                   'default': 'd'})
+        self.classes.append(item)
+        self.plains.append(iname)
+        oname = self.new_name('O')
+        op = oname.lower()
+        va = ip + '_val' if rng.random() < 0.6 else None
+        attr = op + '_items'
+        if rng.random() < 0.5:
+            ptype = [rng.choice(['list', 'seq']), ['cls', iname]]
+            sav = [['map_to_seq', attr, ip + '_key', va]]
+            swe = [['seq_to_map', attr, ip + '_key', va]]
+            extra = {'unique_list': [attr, ip + '_key']}
+        else:
+            ptype = [rng.choice(['dict', 'map']), key_type(), ['cls', iname]]
+            sav = [['map_to_index', attr, ip + '_key', va]]
+            swe = [['index_to_map', attr, ip + '_key', va]]
+            extra = {'index_attr': [attr, ip + '_key']}
+        owner = {'name': oname, 'kind': 'plain', 'roster': True,
+                 'params': [{'name': op + '_id', 'type': 'int'},
+                            {'name': attr, 'type': ptype}],
+                 'recognize': ['all', ['attr', op + '_id', None],
+                               ['attr', attr, None]],
+                 'savorize': sav, 'sweeten': swe}
+        owner.update(extra)
+        self.classes.append(owner)
+        self.plains.append(oname)
+
     def add_seasoning(self, c):
         """Inverse savorize/sweeten pairs from the menu."""
         rng = self.rng
-        if c.get('kind') != 'plain' or c.get('parsed'):
+        if c.get('kind') != 'plain' or c.get('parsed') or c.get('roster') \
+                or c.get('roster_item'):
             return
         r = rng.random()
         names = [p['name'] for p in c['params']]
@@ -375,6 +466,18 @@ class Gen:
                     'int', 'str', 'float', 'bool') for p in c['params']):
                 c['sweeten'] = [['remove_defaults']]
                 c['savorize'] = [['record']]
+                if rng.random() < 0.5:
+                    # _yatiml_defaults: the constructor turns None into this
+                    # value, which is what default removal compares with
+                    cand = [p for p in c['params'] if p.get('default', 0)
+                            is None and isinstance(p['type'], list)
+                            and p['type'][0] == 'opt' and p['type'][1] in (
+                                'int', 'str', 'float', 'bool')]
+                    if cand:
+                        q = rng.choice(cand)
+                        c['defaults_override'] = {q['name']: {
+                            'int': 99, 'str': 'other', 'bool': True,
+                            'float': M.enc(3.25)}[q['type'][1]]}
         elif r < 0.36:
             ints = [p for p in c['params'] if p['type'] == 'int'
                     and 'default' not in p]
@@ -399,13 +502,16 @@ class Gen:
         n = rng.randint(1, 5)
         if rng.random() < 0.15:
             self.add_parsed_class()
+        if rng.random() < 0.15:
+            self.add_roster()
         for _ in range(n):
             base = None
             if self.plains and rng.random() < 0.45:
                 bname = rng.choice(self.plains)
                 base = [c for c in self.classes if c['name'] == bname][0]
                 if base.get('kind') != 'plain' or base.get('extra') \
-                        or base.get('attributes_hook') or base.get('parsed'):
+                        or base.get('attributes_hook') or base.get('parsed') \
+                        or base.get('roster') or base.get('roster_item'):
                     base = None
             self.add_plain_class(base)
         # abstract roots: only classes that have a subclass
@@ -419,6 +525,7 @@ class Gen:
                     c['abstractmethod'] = True
         for c in self.classes:
             self.add_seasoning(c)
+        self.vary_defaults()
         doc_type = self.gen_doc_type()
         spec = {'classes': self.classes, 'doc_type': doc_type,
                 'profile': self.profile}
@@ -461,8 +568,11 @@ def relax(spec, rng, intensity=None):
     spec['profile'] = 'free'
     for c in spec['classes']:
         c.pop('_source', None)
+    # classes whose seasoning depends on the exact shape of their attributes
+    # (parsed classes, rosters and their items) are not relaxed
     plains = [c for c in spec['classes'] if c.get('kind', 'plain') in (
-        'plain', 'dataclass')]
+        'plain', 'dataclass') and not (c.get('parsed') or c.get('roster')
+                                       or c.get('roster_item'))]
     k = intensity if intensity is not None else rng.randint(1, 4)
     for _ in range(k):
         if not plains:
